@@ -74,13 +74,17 @@ func (R *Repository) AddCRL(crlLocations *core.CRLLocations, chains *core.Certif
 		}
 	}
 
-	entry.entryLock.Lock()
-	defer entry.entryLock.Unlock()
-	if entry.LastUpdateSignatureVerifyFailed {
-		//check if the chain contains a new valid signing cert
+	if R.isLastUpdateSignatureVerifyFailed(entry) {
+		//check if the chain contains a new valid signing cert (takes the entry lock itself)
 		R.tryUpdateSignatureCertFromChain(entry, chains)
 	}
 	return crlAdded, nil
+}
+
+func (R *Repository) isLastUpdateSignatureVerifyFailed(entry *Entry) bool {
+	entry.entryLock.RLock()
+	defer entry.entryLock.RUnlock()
+	return entry.LastUpdateSignatureVerifyFailed
 }
 
 func (R *Repository) isEntryLoaded(entry *Entry) bool {
